@@ -1,7 +1,7 @@
 (* C01: the datagram and stream coders are exact inverses on every well-formed
    message; Size = bytes written; too-small buffers; refusals. *)
 From Coq Require Import ZArith List Bool Lia.
-From GoCoap Require Import Base.Bytes Gen.OptionDefs Gen.TcpConsts Codec.Options Codec.Udp Codec.Tcp Codec.Spec Codec.ProofsOpt.
+From GoCoap Require Import Base.Bytes Gen.OptionDefs Gen.TcpConsts Codec.Options Codec.Udp Codec.Tcp Codec.Pool Codec.Spec Codec.ProofsOpt.
 Import ListNotations.
 Open Scope Z_scope.
 Ltac Zify.zify_post_hook ::= Z.div_mod_to_equations.
@@ -398,4 +398,86 @@ Theorem type_truncation_refuted :
 Proof.
   exists f9_witness. eexists. eexists. eexists. split; [cbn; lia|]. split; [vm_compute; reflexivity|].
   split; [vm_compute; reflexivity|]. cbn. lia.
+Qed.
+
+(* ---------- exact capacity behaviour of Decode on an encoding (used by the pooled path) ---------- *)
+Lemma unmarshal_body_cases d r os pay cap : (forall id len, 0 <= len < W32 -> option_keep d id len = legal_len r id len) ->
+  opts_wf r 0 os = true -> 0 <= cap ->
+  let body := spec_options 0 os ++ spec_payload pay in
+  unmarshal_opts (S (length body)) d body 0 0 0 cap [] =
+    if blen os <=? cap then Ok (blen (spec_options 0 os) + rest_len (spec_payload pay), os) else Err EOptCap.
+Proof.
+  intros Hk Hwf Hc body. subst body.
+  rewrite (unmarshal_spec_options d os) by
+    (try (apply (opts_wf_dec_ok d r); [exact Hk|lia|exact Hwf]); try apply spec_payload_rest_ok; try lia;
+     pose proof (spec_options_long os 0) as HL; unfold blen in HL; rewrite app_length; lia).
+  rewrite Z.add_0_l. reflexivity.
+Qed.
+
+Theorem udp_decode_cases m cap : wf_udp m = true -> 0 <= cap ->
+  udp_decode cap (spec_udp_bytes m) =
+    if blen (m_opts m) <=? cap then Ok (m, blen (spec_udp_bytes m)) else Err EOptCap.
+Proof.
+  intros Hwf Hcap. destruct (blen (m_opts m) <=? cap) eqn:E.
+  - apply Z.leb_le in E. apply udp_decode_spec; assumption.
+  - apply Z.leb_gt in E. pose proof (wf_udp_facts_of m Hwf) as F. destruct F as [Ft Fc Fo Fy Fm].
+    pose proof (blen_nonneg (m_tok m)) as Htk.
+    unfold udp_decode. rewrite spec_udp_len.
+    pose proof (blen_nonneg (spec_options 0 (m_opts m))). pose proof (blen_nonneg (spec_payload (m_pay m))).
+    ff (4 + blen (m_tok m) + (blen (spec_options 0 (m_opts m)) + blen (spec_payload (m_pay m))) <? 4).
+    unfold spec_udp_bytes. cbn [app]. rewrite idx_0. cbn [bind].
+    replace ((64 + m_typ m * 16 + blen (m_tok m)) / 64) with 1 by lia. change (1 =? 1) with true. cbn [negb].
+    rewrite land3 by lia. rewrite land15 by lia.
+    replace ((64 + m_typ m * 16 + blen (m_tok m)) mod 16) with (blen (m_tok m)) by lia.
+    ff (blen (m_tok m) >? 8). rewrite idx_1. cbn [bind].
+    set (rest := m_tok m ++ spec_body m).
+    rewrite (sl_to_app [64 + m_typ m * 16 + blen (m_tok m); m_code m; m_mid m / 256; m_mid m mod 256] rest
+             : sl_to (_ :: _ :: _ :: _ :: rest) 4 = Ok _).
+    cbn [bind]. rewrite sl_from_2. cbn [bind]. rewrite idx_0, idx_1. cbn [bind].
+    rewrite sl_from_4. cbn [bind]. subst rest.
+    rewrite blen_app. pose proof (blen_nonneg (spec_body m)). ff (blen (m_tok m) + blen (spec_body m) <? blen (m_tok m)).
+    rewrite sl_to_app, sl_from_app. cbn [bind]. unfold spec_body.
+    rewrite (unmarshal_body_cases CoapOptionDefs rfc_coap_registry) by (try apply coap_keep; assumption || lia).
+    ff (blen (m_opts m) <=? cap). reflexivity.
+Qed.
+
+Theorem tcp_decode_cases m cap : wf_tcp messageMaxLen m = true -> 0 <= cap ->
+  tcp_decode cap (spec_tcp_bytes m) =
+    if blen (m_opts m) <=? cap then Ok (tcp_view m, blen (spec_tcp_bytes m)) else Err EOptCap.
+Proof.
+  intros Hwf Hcap. destruct (blen (m_opts m) <=? cap) eqn:E.
+  - apply Z.leb_le in E. apply tcp_decode_spec; assumption.
+  - apply Z.leb_gt in E. pose proof (wf_tcp_facts_of m Hwf) as F. destruct F as [Ft Fc Fo Fl].
+    pose proof (blen_nonneg (m_tok m)) as Htk. pose proof (blen_nonneg (spec_body m)) as Hb.
+    pose proof (spec_len_field_facts (blen (spec_body m)) ltac:(lia)) as [Hn He].
+    unfold tcp_decode. rewrite (tcp_header_spec m Hwf). cbn [bind h_mlen h_len].
+    pose proof (spec_tcp_hdr_len m) as HL.
+    assert (Htot : blen (spec_tcp_bytes m) = blen (spec_tcp_hdr m) + blen (spec_body m)) by (rewrite spec_tcp_eq; apply blen_app).
+    unfold u32, W32, messageMaxLen in *. rewrite (Z.mod_small (blen (spec_tcp_bytes m))) by lia.
+    ff (blen (spec_tcp_bytes m) <? blen (spec_tcp_bytes m)).
+    rewrite sl_to_all. cbn [bind]. rewrite spec_tcp_eq at 1. rewrite sl_from_app. cbn [bind].
+    unfold tcp_decode_with_header. cbn [h_code h_len h_tok]. unfold spec_body at 1 2.
+    rewrite (unmarshal_body_cases (defs_for_code (m_code m)) (rfc_registry_for_code (m_code m))) by (try apply tcp_keep; assumption || lia).
+    ff (blen (m_opts m) <=? cap). reflexivity.
+Qed.
+
+(* MarshalWithEncoder: the pooled encoder returns exactly the encoding *)
+Theorem pool_marshal_udp m buflen : wf_udp m = true ->
+  pool_marshal udp_size udp_encode_into buflen m = Ok (spec_udp_bytes m).
+Proof.
+  intros Hwf. unfold pool_marshal. rewrite (udp_size_spec m Hwf). cbn [bind].
+  pose proof (blen_nonneg (spec_udp_bytes m)) as Hn.
+  rewrite udp_encode_spec; [|exact Hwf|unfold blen at 2; rewrite repeat_length; lia].
+  unfold overwrite. apply sl_to_app.
+Qed.
+Theorem pool_marshal_tcp m buflen : wf_tcp messageMaxLen m = true ->
+  pool_marshal tcp_size tcp_encode_into buflen m = Ok (spec_tcp_bytes m).
+Proof.
+  intros Hwf. unfold pool_marshal. rewrite (tcp_size_spec m Hwf). cbn [bind].
+  pose proof (blen_nonneg (spec_tcp_bytes m)) as Hn.
+  rewrite (tcp_encode_cases m _ Hwf).
+  set (buf := repeat 0 (Z.to_nat (Z.max buflen (blen (spec_tcp_bytes m))))).
+  assert (Hb : blen (spec_tcp_bytes m) <= blen buf) by (subst buf; unfold blen at 2; rewrite repeat_length; lia).
+  ff (blen buf <? blen (spec_tcp_bytes m)).
+  unfold overwrite. apply sl_to_app.
 Qed.
